@@ -233,6 +233,33 @@ fn c13_enc_read_pool() {
     kani::cover!(id == 3 && got == 8, "last slot, full");
 }
 
+/// C08 c08.abandoned.read - a pool read whose future was dropped while in flight still completes in the kernel with
+/// a buffer id (IORING_CQE_F_BUFFER); that buffer has left the kernel's ring and nobody owns it, so it must be
+/// re-offered.  KNOWN FINDING F10: Shared::update(Dropped)/drop_state discard the completion flags (findings/F10).
+#[kani::proof]
+#[kani::unwind(3)]
+fn c08_abandoned_read() {
+    let mut fp = FakePool::<P4, BS8>::new();
+    let mut ring = FakeSq::<1>::new(0, 0, 0);
+    let subs = subs_of(ring.shared(1, false, false));
+    let gid: u16 = kani::any();
+    let pool = fp.pool(sq_from((*subs).clone()), gid);
+    let shared = std::sync::Arc::new(ManuallyDrop::into_inner(pool));
+    let _keep = ManuallyDrop::new(shared.clone());
+    let t0: u16 = kani::any();
+    fp.set_tail(t0);
+    let buf = ReadBuf { shared, owned: None };
+    let id: u16 = kani::any();
+    kani::assume((id as usize) < P4);
+    let got: i32 = kani::any();
+    kani::assume(got >= 0 && got as usize <= BS8);
+    let fl = libc::IORING_CQE_F_BUFFER | ((id as u32) << libc::IORING_CQE_BUFFER_SHIFT);
+    let freed = crate::io_uring::op::verif_op::abandoned_final_completion::<ReadBuf, u64>(buf, 0, got, fl);
+    assert!(freed, "state of the abandoned operation reclaimed");
+    assert!(fp.tail() == t0.wrapping_add(1), "buffer delivered to an abandoned operation is re-offered to the kernel");
+    kani::cover!(true, "end");
+}
+
 /// multishot read: each result's buffer id becomes one ReadBuf owning that slot; no buffer flag => empty ReadBuf
 #[kani::proof]
 #[kani::unwind(3)]
